@@ -270,6 +270,103 @@ class BuiltinShape(Harness):
             yield 'mirrored-peer-passes', s_implies(pre, s_and(obs['passed'] == True, len(obs['labels']) == 0))  # noqa: E712
 
 
+class Pipeline(Harness):
+    """the whole tool twice: real main() with -M against a scripted server whose KEXINIT carries symbolic names writes a policy file (captured); real main()
+    with -P on that file against (a) the same server passes with status 0, (b) the server with ONE list changed (one name replaced by a different symbolic
+    name) fails with status 3.  Everything between the option namespace and the exit status is the tool's own code."""
+    prop, ob = PROP, 'O4'
+    width = 64
+
+    def __init__(self, field, drift):
+        self.field, self.drift = field, drift
+        self.name = 'pipeline-%s-%s' % (field, 'drift' if drift else 'same')
+
+    def params(self):
+        return {'field': self.field, 'drift': self.drift}
+
+    def inputs(self):
+        az = ((0x61, 0x7A),)
+        inp = {'names': {f: zx.fresh_str('n' + f, 2, az) for f in FIELDS}, 'other': zx.fresh_str('other', 2, az)}
+        if zx.active():
+            zx.cur().assume(s_not(inp['other'] == inp['names'][self.field]))
+        return inp
+
+    def server(self, inp, changed):
+        from props.c09 import BANNER
+        L = {'kex': ['curve25519-sha256', inp['names']['kex']], 'key': ['zz-unprobed-key', inp['names']['key']], 'enc': [inp['names']['enc'], 'aes128-ctr'],
+             'mac': ['hmac-sha2-256', inp['names']['mac']]}
+        if changed:
+            L[self.field] = [inp['other'] if x is inp['names'][self.field] else x for x in L[self.field]]
+        pk = AE.frame(AE.kexinit_payload(L['kex'], L['key'], L['enc'], L['mac']))
+        return AE.FakeNet([AE.Conn([BANNER, pk])], default_end='close')
+
+    def tool(self, M, vals, net, files):
+        import io, contextlib, sys
+        from props.c18 import StubArgparse
+
+        class F:
+            def __init__(self_, name, mode):
+                self_.name, self_.mode = name, mode
+
+            def __enter__(self_): return self_
+            def __exit__(self_, *a): return False
+
+            def write(self_, data):
+                files[self_.name] = data
+
+            def read(self_):
+                if self_.name not in files:
+                    raise FileNotFoundError(self_.name)
+                return files[self_.name]
+
+        def fake_open(name, mode='r', **kw):
+            if 'x' in mode and name in files:
+                raise FileExistsError(name)
+            if 'r' in mode and name not in files:
+                raise FileNotFoundError(name)
+            return F(name, mode)
+        from props import outlib as OL
+        OL.fresh_tables(M)
+        sink = []
+        if zx.active():
+            zx.cur().stdout = sink
+        buf = io.StringIO()
+        old = sys.argv
+        sys.argv = ['ssh-audit', 'x']
+        vals = dict(vals, host='target', skip_rate_test=True)
+        try:
+            with AE.patched(M.ssh_audit, argparse=StubArgparse(vals)), AE.patched(M.ssh_socket, socket=net), contextlib.redirect_stdout(buf):
+                M.ssh_audit.__dict__['open'] = fake_open
+                M.policy.__dict__['open'] = fake_open
+                try:
+                    return guarded(M.ssh_audit.main)
+                finally:
+                    del M.ssh_audit.__dict__['open']
+                    del M.policy.__dict__['open']
+        finally:
+            sys.argv = old
+
+    def run(self, M, inp):
+        files = {}
+        r1 = self.tool(M, {'make_policy': 'pol.txt'}, self.server(inp, False), files)
+        if isinstance(r1, Exc) or 'pol.txt' not in files:
+            return {'make': r1, 'written': 'pol.txt' in files}
+        r2 = self.tool(M, {'policy': 'pol.txt'}, self.server(inp, self.drift), files)
+        return {'make': r1, 'written': True, 'eval': r2}
+
+    def check(self, inp, obs):
+        yield 'policy-file-written', not isinstance(obs['make'], Exc) and obs['written']
+        if 'eval' not in obs:
+            return
+        yield 'policy-run-completes', not isinstance(obs['eval'], Exc)
+        if isinstance(obs['eval'], Exc):
+            return
+        if self.drift:
+            yield 'drifted-peer-fails-with-status-3', obs['eval'] == 3
+        else:
+            yield 'same-peer-passes-with-status-0', obs['eval'] == 0
+
+
 def builtins_concrete():
     """finite, exhaustive: every CURRENT built-in policy is passed by the peer configured exactly as it lists (real load_builtin_policy)."""
     import time
@@ -338,6 +435,9 @@ def tasks(tier):
     for n, nopt, sizes in ([(1, 0, False), (1, 1, False), (2, 2, True), (2, 0, True)] if q else
                            [(1, 0, False), (1, 1, False), (2, 2, True), (2, 0, True), (3, 1, True), (2, 3, False), (3, 2, True)]):
         T.append(BuiltinShape(n, nopt, sizes))
+    for f in FIELDS:
+        T.append(Pipeline(f, False))
+        T.append(Pipeline(f, True))
     T.append(builtins_concrete)
     return T
 
@@ -348,6 +448,8 @@ def harness_by_name(name, params):
         return CreateLoadEval(params['shape'], params['hk'], params['dh'], params['client'])
     if k.startswith('drift'):
         return Drift(params['field'], params['kind'], params['n'], params['pos'], params['pos2'], params.get('extra', ()))
+    if k.startswith('pipeline'):
+        return Pipeline(params['field'], params['drift'])
     if k.startswith('builtin-shape'):
         return BuiltinShape(params['n'], params['nopt'], params['sizes'])
     raise KeyError(name)
